@@ -925,6 +925,12 @@ package pokertable
 //@ func (TableBlindState).IsBreaking
 //@   inline
 
+// what openGame hands back on success: a fresh, well-formed copy of the table with the hand list in place
+//@ spec Opened(te, nt, oldTable) = nt != nil && fresh(nt) && nt != oldTable && TblShape(nt) && TblHand(nt) && fresh(nt.State) && nt.ID == oldTable.ID && nt.Meta == oldTable.Meta
+//@     && len(nt.State.GamePlayerIndexes) >= 2 && nt.State.Status == TableStateStatus_TableGameOpened && nt.State.GameCount == oldTable.State.GameCount + 1
+//@     && nt.State.BlindState != nil && fresh(nt.State.BlindState) && nt.State.BlindState.Level == oldTable.State.BlindState.Level && nt.State.GameState == nil
+//@     && forall(i, 0, 10, i < len(nt.State.PlayerStates) ==> fresh(nt.State.PlayerStates[i]) && 0 <= len(nt.State.PlayerStates[i].Positions) && len(nt.State.PlayerStates[i].Positions) <= 10)
+
 //@ func (*tableEngine).openGame
 //@   property C05 C07 C12
 //@   returns nt, err
@@ -941,9 +947,8 @@ package pokertable
 //@   ensures opened-on-a-copy: err == nil ==> nt != nil && fresh(nt) && nt != oldTable && nt.State != nil && nt.State.Status == TableStateStatus_TableGameOpened
 //@             && nt.State.GameCount == St(te).GameCount + 1
 //@             && nt.State.CurrentDealerSeat == te.sm.DealerSeatID && nt.State.CurrentSBSeat == te.sm.SBSeatID && nt.State.CurrentBBSeat == te.sm.BBSeatID
-//@   ensures opened-table-is-well-formed: err == nil ==> TblShape(nt) && TblHand(nt) && fresh(nt.State) && nt.ID == oldTable.ID && nt.Meta == oldTable.Meta && len(nt.State.GamePlayerIndexes) >= 2
-//@             && nt.State.BlindState != nil && fresh(nt.State.BlindState) && nt.State.BlindState.Level == St(te).BlindState.Level && nt.State.GameState == nil
-//@             && forall(i, 0, 10, i < len(nt.State.PlayerStates) ==> fresh(nt.State.PlayerStates[i]) && 0 <= len(nt.State.PlayerStates[i].Positions) && len(nt.State.PlayerStates[i].Positions) <= 10)
+//@   ensures opened-table-is-well-formed: err == nil ==> Opened(te, nt, oldTable)
+//@   ensures coupling-kept: TableWF(te) && Coupled(te)
 //@   ensures exactly-the-eligible-are-dealt-in: err == nil ==> len(nt.State.PlayerStates) == len(PS(te))
 //@             && forall(i, 0, 10, i < len(PS(te)) ==> (nt.State.PlayerStates[i].IsParticipated <==> ActiveAt(te.sm, PS(te)[i].Seat)))
 //@   ensures at-least-two-dealt-in: err == nil ==> activeCount(te.sm) >= 2
@@ -1072,9 +1077,13 @@ package pokertable
 //@   returns err
 //@   config M 2..10 : te.table.Meta.TableMaxSeatCount = M, te.sm.MaxSeat = M, len(te.sm.SeatData) = M
 //@   requires TableWF(te) && Coupled(te) && St(te).BlindState != nil && te.gameBackend != nil && !held(te.lock)
+//@   requires te.table.Meta.Rule == CompetitionRule_Default && te.sm.Rule == "default"     // default-rule tables
 //@   guarded te.lock : "pokertable.tableEngine.table", "pokertable.tableEngine.game", "pokertable.tableEngine.sm", "pokertable.Table.", "pokertable.TableState.", "pokertable.TablePlayerState."
 //@   modifies te.table, te.game, te.sm.DealerSeatID, te.sm.SBSeatID, te.sm.BBSeatID, te.sm.IsInit, forall(s, 0, M, te.sm.SeatData[s].IsBetweenDealerBB), log
-//@   loop 0 unroll 10
+//@   loop 0 invariant 0 <= i && i <= 10 && held(te.lock) && te.table == old(te.table) && unchanged(te.game) && St(te).GameState == nil && St(te).BlindState != nil
+//@   loop 0 invariant TableWF(te) && Coupled(te) && St(te).Status == old(St(te).Status) && St(te).GameCount == old(St(te).GameCount) && te.table.ID == old(te.table.ID)
+//@   loop 0 invariant err == nil ==> Opened(te, newTable, te.table)
+//@   loop 0 decreases 10 - i
 //@   ensures closed-or-released-opens-nothing: old(St(te).Status == TableStateStatus_TableClosed) || te.isReleased ==> err == nil && unchanged(te.table) && unchanged(te.game) && noCall()
 //@   ensures unsettled-hand-blocks-a-new-one: old(St(te).GameState != nil) ==> err == nil && unchanged(te.table) && unchanged(te.game) && noCall()
 //@   ensures old-table-object-untouched: old(St(te).Status) == old(te.table).State.Status && old(St(te).GameCount) == old(te.table).State.GameCount
